@@ -736,3 +736,41 @@ func c13SdsUpdateSerialised(c *Ctx, pkg string) {
 		c.Unresolved("C13.R8", fmt.Sprintf("calls of sdsProvider.update and its three entry points (found %d)", n))
 	}
 }
+
+// c13SessionCachePrivate (R9): an upstream is verified against the trust anchors configured *now*.
+// On a resumed TLS session the client does not verify the server's chain again - it trusts what was verified when the
+// session was created. That is sound only while the cache of sessions belongs to one context (one set of trust anchors):
+// a cache that outlives the context, or is shared between contexts that differ in their CA, lets an upstream whose
+// certificate no longer chains to the configured CA be accepted. Clause: tls.Config.ClientSessionCache is either never set
+// in pkg/mtls, or set to the direct result of tls.NewLRUClientSessionCache called in the function that builds that very
+// config (a cache private to the context); nothing else - in particular no adapter type and nothing reachable from a
+// package-level variable.
+func c13SessionCachePrivate(c *Ctx, pkg string) {
+	n := 0
+	ord := ordCounter{}
+	for _, fn := range c.PkgFuncs(pkg) {
+		forEachInstr(fn, false, func(f *ssa.Function, in ssa.Instruction) {
+			st, ok := in.(*ssa.Store)
+			if !ok {
+				return
+			}
+			tn, fld, _, okf := fieldAddrInfo(st.Addr)
+			if !okf || fld != "ClientSessionCache" || !strings.HasSuffix(tn, "tls.Config") {
+				return
+			}
+			n++
+			v := stripIface(st.Val)
+			good, why := false, "a session cache that is not created for this config alone"
+			if isNilConst(st.Val) {
+				good, why = true, "nil"
+			} else if call, isC := v.(*ssa.Call); isC {
+				if cal := call.Common().StaticCallee(); cal != nil && cal.Name() == "NewLRUClientSessionCache" {
+					good, why = true, "a cache created for this config alone"
+				}
+			}
+			c.Check("C13.R9", ord.next(f, "session-cache-private"), st.Pos(), good, why, "tls.Config.ClientSessionCache is set in "+f.Name()+" to "+why+": sessions negotiated under one set of trust anchors can be resumed by a context with another - a resumed handshake does not verify the upstream's chain again, so an upstream whose certificate does not chain to the configured CA is accepted")
+		})
+	}
+	// zero stores is the state of the reference tree; the mutant catalogue keeps a positive example
+	c.Pass("C13.R9", "pkg/mtls:session-cache-stores", token.NoPos, fmt.Sprintf("%d store(s) to tls.Config.ClientSessionCache in %s, each private to its config", n, pkg))
+}
